@@ -94,8 +94,18 @@ pub fn run(a: &Args) {
     for roots in &root_sets {
         let mut probe = WatcherProbe::new(roots.clone());
         for p in &paths {
-            for (code, kind) in &kinds {
-                let ev = notify::Event::new(*kind).add_path(p.clone());
+            for (ki, (code, kind)) in kinds.iter().enumerate() {
+              // the entries named depend on kind and path only: event attributes (the rename
+              // cookie inotify puts on every MOVED_FROM / MOVED_TO, info strings, flags) change nothing
+              for attr in 0..2u8 {
+                if attr == 1 && (ki + n as usize) % 3 != 0 && *code != 2 {
+                    continue;
+                }
+                let mut ev = notify::Event::new(*kind).add_path(p.clone());
+                if attr == 1 {
+                    ev = ev.set_tracker(4242).set_info("verif").set_flag(notify::event::Flag::Rescan);
+                }
+                let kind = &format!("{kind:?}{}", if attr == 1 { " +tracker" } else { "" });
                 let got = probe.feed(ev);
                 let mut dirs = vec![format!("({}, {})", comps(p), cbool(p.is_dir()))];
                 if let Some(q) = p.parent() {
@@ -113,11 +123,12 @@ pub fn run(a: &Args) {
                     "{{\"roots\": {:?}, \"path\": {:?}, \"kind\": {}, \"sent\": {}}}",
                     roots,
                     p,
-                    jstr(&format!("{kind:?}")),
+                    jstr(kind),
                     jstr(&format!("{got:?}"))
                 );
                 cases.push_nt(g, coq, json, !got.is_empty());
                 n += 1;
+              }
             }
         }
     }
